@@ -463,6 +463,15 @@ def handler(ctx):
                 ctx.holds('C06.S6', '%s: memo %s is keyed by (or emptied on a change of) everything its entries depend on (%s)' % (qn, m_, fmt(vd[1])), fn.site())
         sound = {m_ for m_, vd in memos.items() if vd[0] == 'sound'}
         unsound = {m_ for m_, vd in memos.items() if vd[0] == 'unsound'}
+        from ..lib import set_memos
+        seen_sm = set()
+        for fld_, K_, miss_, site_, cond_ in set_memos(ctx, fn, ps):
+            if (fld_, site_) in seen_sm:
+                continue
+            seen_sm.add((fld_, site_))
+            ctx.violation('C06.S6', '%s skips a data source only for what holds at every instant' % qn, site_,
+                          'self.%s remembers %s when [%s], a fact about this %s, and consults it for every later %s: one query before the first bar and the source is never asked again'
+                          % (fld_, fmt(K_)[:60], cond_, '/'.join(miss_), '/'.join(miss_)), key='C06.S6|%s|neg-cache|%s' % (qn, fld_))
         for p in ps:
             if p.outcome != 'return':
                 continue
